@@ -75,84 +75,79 @@ def run(fb, rep, tier, cfg):
         rep.violation(R, "cmp-operands", "the ordering is no longer cmp(next_op.precedence, stack_op.precedence) (prec=%s/%s, from-stack=%s/%s)" % (prec0, prec1, stack0, stack1), cmp.where())
         return
     rep.ok(R, "ordering = <i32 as Ord>::cmp(next_op.precedence, stack_op.precedence)")
-    # the switch on the ordering
-    sw = None
-    for bb, place, m, other in enum_switches_any(b):
-        if not place[1] and place[0] == cmp.dest[0]:
-            sw = (bb, m, other)
-    if sw is None:
-        rep.anchor_lost(R, "match on the Ordering")
-        return
-    bb, m, other = sw
-    head = [c.bb for c in b.calls() if c.res.endswith("Infixes::<'ast, Id>::next") or c.res.endswith("Iterator>::next") and "Infixes" in c.res]
-    names = {255: "Less", 0: "Equal", 1: "Greater"}
-    want = {"Less": "reduce", "Greater": "shift"}
-    targets = {names[v]: t for v, t in m.items() if v in names}
-    for o in ("Less", "Equal", "Greater"):
-        if o not in targets:
-            rep.violation(R, "ordering-arm-missing|%s" % o, "no arm for Ordering::%s" % o, b.where())
-            return
-    for o in ("Less", "Greater"):
-        others = [t for k, t in targets.items() if k != o]
-        region = b.reachable(targets[o], avoid_blocks=head) - b.reachable(others, avoid_blocks=head)
-        got, why = _classify(b, region, make_op_id)
-        if got == want[o]:
-            rep.ok(R, "Ordering::%s -> %s (%s)" % (o, got, why))
-        else:
-            rep.violation(R, "decision|%s" % o, "precedence %s: expected %s, the code does %s (%s)" % (o, want[o], got, why), "%s:%s" % (b.file, b.line))
-        if o == "Less":
-            # the reduction uses the operator from the stack, not the next one
-            mk = [c for c in b.calls() if c.bb in region and c.res == make_op_id]
-            if mk:
-                args = mk[0].args[1] if len(mk[0].args) > 1 else None
-                srcs = flow.sources(b, args) if args else set()
-                if flow.has_call(srcs, lambda n: n.endswith("Vec::<T, A>::pop")):
-                    rep.ok(R, "reduce builds the node with the operator popped from the stack")
-                else:
-                    rep.violation(R, "reduce-wrong-operator", "reduce builds the node with the incoming operator instead of the stacked one", mk[0].where())
-    # Equal: nested switches on the fixities
-    eq_region = b.reachable(targets["Equal"], avoid_blocks=head) - b.reachable([targets["Less"], targets["Greater"]], avoid_blocks=head)
+    # the decision, read by walking the CFG under each assignment of (ordering, next.fixity, stack.fixity): every switch on
+    # one of the three discriminants follows the assigned value, every other branch is explored on all sides, the walk stops at
+    # the loop head; the actions met on the way classify the decision.  Independent of how the match is nested or flattened.
     fnames = variant_names(fb, FIX)
     if fnames[:2] != ["Left", "Right"]:
         rep.anchor_lost(R, "enum Fixity { Left, Right }")
         return
-    # the pair is (next.fixity, stack.fixity): find the tuple local and which field is which
-    table_ = {}
-    sws = [(bb2, pl, m2, o2) for bb2, pl, m2, o2 in enum_switches_any(b) if bb2 in eq_region]
-    first = [s for s in sws if s[1][1] and s[1][1][-1] == ["f", 0]]
-    if not first:
-        rep.anchor_lost(R, "match on (next.fixity, stack.fixity)")
+    head = [c.bb for c in b.calls() if c.res.endswith("Infixes::<'ast, Id>::next") or c.res.endswith("Iterator>::next") and "Infixes" in c.res]
+    is_pop = lambda n: n.endswith("Vec::<T, A>::pop")
+    is_cmp = lambda n: n.endswith("Ord for i32>::cmp") or n.endswith("Ord::cmp")
+
+    def role(place):
+        local, projs = place
+        srcs = None
+        if projs and isinstance(projs[-1], list) and projs[-1][0] == "f" and len(projs[-1]) == 2:
+            for d in b.defs_of(local):
+                if d[0] == "assign" and d[3][0] == "agg" and d[3][1][0] == "tuple" and projs[-1][1] < len(d[3][2]):
+                    srcs = flow.sources(b, d[3][2][projs[-1][1]])
+        if srcs is None:
+            srcs = flow.sources(b, place)
+        if ("field", OPMETA, "fixity") in srcs:
+            return "stack" if flow.has_call(srcs, is_pop) else "next"
+        if flow.has_call(srcs, is_cmp) and ("field", OPMETA, "precedence") in srcs:
+            return "ord"
+        return None
+    roles = {}
+    for bb2, place, m2, o2 in enum_switches_any(b):
+        r_ = role(place)
+        if r_:
+            roles[bb2] = (r_, m2, o2)
+    n_ord = sum(1 for v in roles.values() if v[0] == "ord")
+    n_fix = sum(1 for v in roles.values() if v[0] in ("next", "stack"))
+    if not n_ord or n_fix < 2:
+        rep.anchor_lost(R, "switches on the ordering (%d) and on the two fixities (%d)" % (n_ord, n_fix))
         return
-    tup = first[0][1][0]
-    # element 0 must be next_op's fixity, element 1 the stack operator's
-    tdefs = [d for d in b.defs_of(tup) if d[0] == "assign" and d[3][0] == "agg"]
-    if tdefs:
-        e0 = flow.sources(b, tdefs[0][3][2][0])
-        e1 = flow.sources(b, tdefs[0][3][2][1])
-        if flow.has_call(e1, lambda n: n.endswith("Vec::<T, A>::pop")) and not flow.has_call(e0, lambda n: n.endswith("Vec::<T, A>::pop")):
-            rep.ok(R, "the fixity pair is (next_op.fixity, stack_op.fixity)")
+
+    def walk(assign):
+        seen, work = set(), [cmp.target]
+        while work:
+            x = work.pop()
+            if x is None or x in seen or x in head:
+                continue
+            seen.add(x)
+            if x in roles:
+                r_, m2, o2 = roles[x]
+                work.append(m2.get(assign[r_], o2))
+            else:
+                work.extend(b.succ(x))
+        return seen
+    ORD = {"Less": 255, "Equal": 0, "Greater": 1}
+    ref = {}
+    for nf in (0, 1):
+        for sf in (0, 1):
+            ref[("Less", nf, sf)] = "reduce"
+            ref[("Greater", nf, sf)] = "shift"
+            ref[("Equal", nf, sf)] = "reduce" if (nf, sf) == (0, 0) else ("shift" if (nf, sf) == (1, 1) else "conflict")
+    for (o, nf, sf), want_ in sorted(ref.items()):
+        region = walk({"ord": ORD[o], "next": nf, "stack": sf})
+        got, why = _classify(b, region, make_op_id)
+        label = "%s, next=%s, stack=%s" % (o, fnames[nf], fnames[sf])
+        if got == want_:
+            rep.ok(R, "precedence %s -> %s (%s)" % (label, got, why))
         else:
-            rep.violation(R, "fixity-pair-order", "the matched pair is no longer (next.fixity, stack.fixity)", b.where())
-    bb0, pl0, m0, o0 = first[0]
-    for v0, t0 in sorted(m0.items()):
-        for bb1, pl1, m1, o1 in sws:
-            if pl1[0] == tup and pl1[1] and pl1[1][-1] == ["f", 1] and bb1 in b.reachable(t0, avoid_blocks=[bb0] + head):
-                for v1, t1 in sorted(m1.items()):
-                    leaf_others = [t for vv, t in m1.items() if t != t1]
-                    region = b.reachable(t1, avoid_blocks=head + [bb1]) - b.reachable(leaf_others, avoid_blocks=head + [bb1])
-                    if (v0, v1) not in table_:
-                        table_[(v0, v1)] = _classify(b, region, make_op_id)
-                break
-    ref = {(0, 0): "reduce", (1, 1): "shift", (0, 1): "conflict", (1, 0): "conflict"}
-    for k, want_ in sorted(ref.items()):
-        got = table_.get(k)
-        label = "(%s, %s)" % (fnames[k[0]], fnames[k[1]])
-        if got is None:
-            rep.violation(R, "equal-arm-missing|%s" % label, "equal precedence %s has no arm" % label, b.where())
-        elif got[0] == want_:
-            rep.ok(R, "equal precedence %s -> %s" % (label, want_))
-        else:
-            rep.violation(R, "decision|Equal%s" % label, "equal precedence, fixities %s: expected %s, the code does %s (%s)" % (label, want_, got[0], got[1]), b.where())
+            rep.violation(R, "decision|%s|%s|%s" % (o, fnames[nf], fnames[sf]),
+                          "cmp(next.precedence, stack.precedence) = %s with next %s-associative and stacked %s-associative: expected %s, the code does %s (%s)"
+                          % (o, fnames[nf].lower(), fnames[sf].lower(), want_, got, why), "%s:%s" % (b.file, b.line))
+        if want_ == "reduce" and got == "reduce":
+            mk = [c for c in b.calls() if c.bb in region and c.res == make_op_id]
+            srcs = flow.sources(b, mk[0].args[1]) if mk and len(mk[0].args) > 1 else set()
+            if flow.has_call(srcs, is_pop):
+                rep.ok(R, "%s: reduce builds the node with the operator popped from the stack" % label)
+            else:
+                rep.violation(R, "reduce-wrong-operator", "reduce builds the node with the incoming operator instead of the stacked one", mk[0].where() if mk else b.where())
     # final drain: operators popped from the end (into_iter().rev())
     rev = [c for c in b.calls() if c.fn and c.fn.endswith("Iterator::rev")]
     mk_all = [c for c in b.calls() if c.res == make_op_id]
